@@ -165,6 +165,30 @@ func historyRequests(c *run.Ctx) []histReq {
 			return sqls(rn.RunText(ch, q, start, start+300e9, 5*time.Second, 100, 20*time.Second))
 		}})
 	}
+	// the same query over different windows - just after a UTC midnight, at noon of that day, the evening before,
+	// either side of 00:30 - so that each history asks them in another order (what a memo keyed by too little of the
+	// window would answer from the previous request)
+	day := int64(1700006400) // 2023-11-15 00:00:00 UTC
+	wins := []struct {
+		n    string
+		from int64
+	}{{"00:10", day + 600}, {"12:00", day + 43200}, {"eve 18:00", day - 21600}, {"00:29:59", day + 1799}, {"00:30:01", day + 1801}, {"23:59", day + 86340}, {"next 00:05", day + 86700}}
+	for _, q := range []string{`{app="alpha"} |= "x"`, `rate({app="alpha"} [1m])`, `sum by (app) (count_over_time({env="delta"} | json [1m]))`} {
+		for _, w := range wins {
+			q, w := q, w
+			out = append(out, histReq{fmt.Sprintf("logql window %s %s", w.n, q), func(tq *traceRig, rn *logq.Runner, ch *chsql.DB) []string {
+				return sqls(rn.RunText(ch, q, w.from*1e9, (w.from+300)*1e9, 5*time.Second, 100, 20*time.Second))
+			}})
+		}
+	}
+	for _, w := range wins {
+		w := w
+		body := fmt.Sprintf(`{"profile_typeID":"process_cpu:cpu:nanoseconds:cpu:nanoseconds","label_selector":"{service_name=\"x\"}","start":%d,"end":%d}`, w.from*1000, (w.from+300)*1000)
+		out = append(out, histReq{"pyroscope window " + w.n, func(tq *traceRig, rn *logq.Runner, ch *chsql.DB) []string {
+			s, _ := tq.post("/querier.v1.QuerierService/SelectMergeStacktraces", body)
+			return s
+		}})
+	}
 	histDB = db
 	return out
 }
